@@ -8,7 +8,7 @@
    permutation; everything else: the list function spec_step);
    refines ... s ops = along the history ops, as long as every operation is in range, each step
    keeps the invariant and satisfies spec_ok. *)
-From CelloV Require Import Generated SeqModels SeqProofs SortProofs SeqTupleProofs SeqTheorems.
+From CelloV Require Import Generated SeqModels SeqProofs SortProofs SeqTupleProofs SeqErrorProofs SeqTheorems.
 From Coq Require Import List ZArith Bool Permutation Sorted.
 Import ListNotations.
 
@@ -133,6 +133,57 @@ Theorem rem_removes_first_equal :
   spec_step E eqb ltb zero c (l1 ++ x :: l2) (SRem E v) = (l1 ++ l2, OUnit E).
 Proof. exact SeqProofs.spec_rem_first. Qed.
 Print Assumptions rem_removes_first_equal.
+
+(* beyond the in-range contract (the models' half of C12): an operation outside the contract raises
+   the documented exception and changes nothing, so the refinement holds along EVERY history
+   (refines_all = refines without the in-range premise; spec_ok then demands spec_step's
+   `(l, ORaise e)`), and a raising step of a model never changes its state, whatever the state *)
+Theorem array_refines_list_all_histories :
+  forall (E : Type) (eqb ltb : E -> E -> bool) (zero : E),
+  (forall x y, ltb x y = true -> ltb y x = false) ->
+  (forall x y z, ltb x y = true -> ltb y z = true -> ltb x z = true) ->
+  forall (ops : list (sop E)) (a : array E),
+  a_inv E a ->
+  refines_all E eqb ltb zero (array E)
+    (a_step E eqb ltb array_grow_cond array_shrink_cond array_grow_size array_shrink_size)
+    (a_abs E) (a_inv E) KArray (fun _ _ => True) a ops.
+Proof. exact SeqTheorems.array_refines_list_all. Qed.
+Print Assumptions array_refines_list_all_histories.
+
+Theorem list_refines_list_all_histories :
+  forall (E : Type) (eqb ltb : E -> E -> bool) (zero : E)
+         (ops : list (sop E)) (l : llist E),
+  l_inv E l ->
+  refines_all E eqb ltb zero (llist E) (l_step E eqb zero) (l_abs E) (l_inv E) KList (fun _ _ => True) l ops.
+Proof. exact SeqTheorems.list_refines_list_all. Qed.
+Print Assumptions list_refines_list_all_histories.
+
+Theorem tuple_refines_list_all_histories :
+  forall (E : Type) (eqb ltb same : E -> E -> bool) (zero : E),
+  (forall x y, ltb x y = true -> ltb y x = false) ->
+  (forall x y z, ltb x y = true -> ltb y z = true -> ltb x z = true) ->
+  (forall x, same x x = true) ->
+  (forall x y, eqb x y = eqb y x) ->
+  forall (ops : list (sop E)) (t : tuple E),
+  t_inv E same t ->
+  refines_all E eqb ltb zero (tuple E) (t_step E eqb ltb same) (t_abs E) (t_inv E same) KTuple
+              (t_fresh E same) t ops.
+Proof. exact SeqTheorems.tuple_refines_list_all. Qed.
+Print Assumptions tuple_refines_list_all_histories.
+
+Theorem raising_step_changes_nothing :
+  forall (E : Type) (eqb ltb same : E -> E -> bool) (zero : E)
+         (gc sc : nat -> nat -> bool) (gs ss : nat -> nat -> nat) (o : sop E) (e : cexn),
+  (forall a a', a_step E eqb ltb gc sc gs ss a o = (a', ORaise E e) -> a' = a) /\
+  (forall l l', l_step E eqb zero l o = (l', ORaise E e) -> l' = l) /\
+  (forall t t', t_step E eqb ltb same t o = (t', ORaise E e) -> t' = t).
+Proof.
+  exact (fun E eqb ltb same zero gc sc gs ss o e =>
+    conj (fun a a' => SeqErrorProofs.a_raise_unchanged E eqb ltb gc sc gs ss a o a' e)
+    (conj (fun l l' => SeqErrorProofs.l_raise_unchanged E eqb zero l o l' e)
+          (fun t t' => SeqErrorProofs.t_raise_unchanged E eqb ltb same t o t' e))).
+Qed.
+Print Assumptions raising_step_changes_nothing.
 
 (* the repaired error-path defects of this area were real: witnesses on the pre-repair variants of
    the models (D13 cab8f5d, D14 9c281b5, D15 898595c; they concern C12, recorded here because the
